@@ -274,3 +274,25 @@ prop(
     assumptions=["time.Ticker never delivers a tick early and its channel buffers at most one tick (hypothesis ticks_not_early of C09_cadence)",
                  "monotonic clock readings of the harness; the last evaluated value may be refused by the pool because triggering had stopped"],
 )
+
+C05_DRIFT = ["internal/raterun/runner.go::Runner.Start", "internal/raterun/runner.go::Runner.Start.go", "internal/raterun/runner.go::Runner.Stop",
+             "internal/run/result.go::Result.Teardown", "internal/run/result.go::Result.Summary", "internal/run/result.go::Result.Error",
+             "internal/run/result.go::Result.Failed", "internal/run/result.go::Result.SnapshotProgress", "internal/run/result.go::Result.Progress",
+             "internal/run/result.go::Result.HasDroppedIterations", "internal/run/result.go::Result.GetTotals",
+             "internal/workers/trigger_pool.go::TriggerPool.halt", "internal/workers/trigger_pool.go::TriggerPool.sendJobsForExecution",
+             "internal/workers/trigger_pool.go::TriggerPool.waitForNewJobs", "internal/workers/trigger_pool.go::TriggerPool.Start.go"]
+
+prop(
+    id="C05",
+    stages=[dict(name="c05runs", pkg="c05", test="TestC05Runs", access=[RUN_ACCESS, WORKERS_ACCESS], timeout_quick=400, timeout_thorough=3000),
+            dict(name="c05gate", pkg="c05", test="TestC05Gate", access=[RUN_ACCESS, WORKERS_ACCESS], instrument=True, drift=C05_DRIFT,
+                 timeout_quick=400, timeout_thorough=3000)],
+    rule="(a) real Run.Do for every trigger mode (constant, staged, ramp, gaussian, users, file) x ending (max-duration, trigger duration, limit, cancel at a random instant, cancel before/at start, setup failure) x body pattern "
+         "(instant, sleeping, blocked until after the end, never finishing with a short completion timeout): returns within its bound (30s watchdog), no body starts after the return, every started body finished at the return "
+         "unless the timeout expired, no start after the deadline (+60ms), goroutine-leak check; oracle = extracted predicate c05_ok; (b) gate script on sources instrumented from the working tree: the progress runner is parked "
+         "just before dispatching a due tick and released when main is between the nested read locks of the final rendering; the run must still return; the sync-op listing of the functions the run-level model covers is "
+         "compared with the committed one; non-trivial = anything but (instant bodies, max-duration); distinct = distinct observations",
+    assumptions=["sync.RWMutex is writer-preferring (a pending Lock blocks new RLocks), as documented", "Go timers never fire early; wall-clock punctuality is the runtime's (one-sided checks with slack)",
+                 "the worker pool is an abstract 'all workers exited' event at run level; its own progress is C05_pool_progress",
+                 "termination is shown as deadlock-freedom plus environment obligations, not by a ranking function"],
+)
